@@ -380,8 +380,8 @@ class Precondition:
         for operand in self.operands:
             operand.change_signature(old_to_new_param_names)
 
-        # the operands are hashed by their text, which has just changed.
-        self.operands = set(self.operands)
+        # the operands are hashed by their text, which has just changed (set(a_set) would copy the stored hashes).
+        self.operands = set(list(self.operands))
         self.equality_preconditions = {
             (
                 old_to_new_param_names.get(param_1, param_1),
